@@ -14,10 +14,10 @@ TECHNIQUE = ("Coq proofs (induction on the digit loops; Flocq binary64 for the f
              "differential execution (extracted OCaml vs the real templates/functions under ASan/UBSan, texts and "
              "double bit patterns compared exactly); oracle = canonical decimal / exact inverse for integers, correct "
              "rounding and half-ulp distance in exact integer arithmetic for doubles")
-LEVEL_TEXT = ("Integers (fast_atoi as repaired by a8219b1), full strength: for EVERY int32 v, INT_MIN and INT_MAX included, the "
-              "modelled itoa yields the canonical decimal text and the modelled fast_atoi<int> parses it back to v with every "
-              "intermediate int operation in range (overflow-checked model: no undefined behaviour); every uint32 likewise; on "
-              "arbitrary text all three instantiations return the value whenever the text is a canonical decimal of the type; "
+LEVEL_TEXT = ("Integers (fast_atoi as of a8219b1 + 1965750: sign honoured, unsigned accumulator), full strength: for EVERY int32 v, "
+              "INT_MIN and INT_MAX included, the modelled itoa yields the canonical decimal text and the modelled fast_atoi<int> "
+              "parses it back to v; every uint32 likewise; fast_atoi is total and free of undefined operations on every text and "
+              "all three instantiations return the value whenever the text is a canonical decimal of the type; "
               "witnesses that the routine before the repair failed (-5 -> -25, signed overflow on INT_MAX).  Doubles: the general "
               "round-trip law is refuted by kernel-checked witnesses (double rounding onto an exact half, inexact parser, "
               "exponential format and int overflow just below 2^31; the tie-branch roll-over only for the code before a6c4c45); proved: every integral double below 2^31 renders as its "
@@ -29,9 +29,8 @@ LEVEL_TEXT = ("Integers (fast_atoi as repaired by a8219b1), full strength: for E
 LEVEL_NOTE = ("Trusted: Coq kernel, Flocq 4.1.0 (binary64 operations; its Reals axioms), extraction (ExtrOcamlBasic), the "
               "hand transcriptions (checked by the correspondence run), x86-64 SSE2 double arithmetic (round to nearest "
               "even, no x87 excess precision, no FMA contraction), char signed; one fully sanitized harness build "
-              "(ASan + UBSan incl. shift and signed-overflow checks): an undefined int operation inside fast_atoi stops "
-              "the process and is compared with the overflow-checked model's UB outcome.")
-DESIGN_REF = "DESIGN.md section 4, C08; findings F01 (fixed by a8219b1), F02 (fixed by a6c4c45), F03 (section 5)"
+              "(ASan + UBSan incl. shift and signed-overflow checks): any sanitizer report inside fast_atoi is a failure.")
+DESIGN_REF = "DESIGN.md section 4, C08; findings F01 (fixed by a8219b1; accumulator unsigned since 1965750), F02 (fixed by a6c4c45), F03 (section 5)"
 PROPS_FILE = "Props/Properties_C08.v"
 COQ_TARGETS = ["Props/Properties_C08.vo", "Extract/Extract_C08.vo"]
 TRUSTED_BASE = [
@@ -52,9 +51,7 @@ ASSUMPTIONS = [
     "double arithmetic of the build is IEEE binary64 round-to-nearest-even without excess precision or fused multiply-add",
     "the in-place character reversal at the end of itoa/modp_dtoa is modelled as list reversal",
     "for |value| > 2^31-1 modp_dtoa calls sprintf(\"%e\"): glibc's output is not modelled, both sides are reduced to the token EXP",
-    "fast_atoi<int> on texts whose value leaves int is undefined behaviour: the model (every int operation checked in "
-    "evaluation order) yields the outcome UB there, the sanitized build a UBSan report inside fast_atoi; which operation is "
-    "reported first is not compared",
+    "static_cast<int>(unsigned) in fast_atoi is the two's complement reinterpretation (implementation-defined, gcc/x86-64)",
 ]
 RULE = ("integers: boundaries (0, +-1, INT_MIN/MAX, UINT_MAX, 65535/6), powers of ten and of two +-1, random values of every "
         "digit count, both signs; raw parser texts (digits, signs, leading zeros, other bytes, SOH-terminated); doubles: for each "
@@ -234,7 +231,8 @@ def gen_atoi(rng, tier):
     cs = []
     fixed = ["0", "1", "9", "10", "007", "0000", "65535", "65536", "65537", "99999", "2147483647", "2147483648",
              "4294967295", "4294967296", "4294967297", "9999999999", "12345678901", "-1", "-5", "-10", "-2147483648",
-             "-2147483647", "-2115098112", "-2147483649", "-9999999999", "-007", "-00", "-0", "+5", " 5", "5 ", "1.5", "12a", "a", "-", "--1", "1-1", "", "3e2",
+             "-2147483647", "-2115098112", "-2147483649", "-9999999999", "-4294967296", "-4294967295", "99999999999999999999",
+             "-99999999999999999999", "-007", "-00", "-0", "+5", " 5", "5 ", "1.5", "12a", "a", "-", "--1", "1-1", "", "3e2",
              "\x7f", "\xff1", "1\x80", "\xb0"]
     for t in fixed:
         for ty in "ius":
@@ -254,11 +252,10 @@ def gen_atoi(rng, tier):
             v = min(rand_digits(rng, nd), hi)
             t = str(v)
         elif mode == 3:    # leading zeros / out of range digits
-            # (for int, values beyond INT_MAX stop the sanitized process: each costs a restart, keep them few)
-            t = "0" * rng.randrange(0, 3) + str(rng.randrange(0, 10 ** rng.randrange(1, 11 if ty == "i" else 13)))
+            t = "0" * rng.randrange(0, 3) + str(rng.randrange(0, 10 ** rng.randrange(1, 14)))
         elif mode == 4:    # negative (canonical for int up to INT_MIN, wrap-around for the unsigned types)
             v = rand_digits(rng, rng.randrange(1, 11))
-            t = "-" + str(min(v, 2 ** 31) if ty == "i" and rng.random() < 0.9 else v)
+            t = "-" + str(min(v, 2 ** 31) if ty == "i" and rng.random() < 0.6 else v * rng.choice((1, 7, 1000)))
         else:              # arbitrary bytes
             t = bytes(rng.choice((rng.randrange(48, 58), rng.randrange(1, 256))) for _ in range(rng.randrange(0, 9)))
         cs.append(A(ty, 0, t, "atoi-digits" if mode <= 3 else "atoi-neg" if mode == 4 else "atoi-bytes"))
